@@ -39,8 +39,11 @@ Accept(m) == LET k == m.f.key IN
     /\ m.f.revoked \in {"none", "other"}
 VARIABLES msg, devs
 vars == <<msg, devs>>
-Init == /\ \E s \in Sizes, ea \in Good.eeaki, ca \in Good.crlaki, rv \in Good.revoked, ec \in Good.eeca :
-             msg = [size |-> s, f |-> [attrs |-> "ok", digest |-> "ok", sig |-> "ok", sid |-> "ok", eesig |-> "peer", eetime |-> "ok",
+\* the two SHA-256 algorithm identifiers with parameters absent or NULL (digestAlgorithms set, SignerInfo): all four are good
+AlgForms == {"aa", "nn", "na", "an"}
+Init == /\ \E s \in Sizes, ea \in Good.eeaki, ca \in Good.crlaki, rv \in Good.revoked, ec \in Good.eeca, al \in AlgForms :
+             /\ (al # "aa" => s = "plain" /\ ea = "peer" /\ ca = "peer" /\ rv = "none" /\ ec = "no")
+             /\ msg = [size |-> s, alg |-> al, f |-> [attrs |-> "ok", digest |-> "ok", sig |-> "ok", sid |-> "ok", eesig |-> "peer", eetime |-> "ok",
                                        eeca |-> ec, eeaki |-> ea, crlsig |-> "peer", crltime |-> "ok", crlaki |-> ca, revoked |-> rv, key |-> "peer"]]
         /\ devs = 0
 Deviate == /\ devs < MaxDev
